@@ -27,6 +27,8 @@ type c10Peer struct {
 	// openconfirm-out, established-out, opensent-in, openconfirm-in,
 	// established-in, collision (out in OpenSent + in in OpenConfirm),
 	// collision2 (both in OpenSent), held-down, writers-in, writers-out,
+	// *-partial: the remote has sent a header and part of the body of a message
+	// (the reader sits between the two) when the stop arrives,
 	// twins-in: three inbound connections back to back (at most one is served),
 	// idle-due / active-due: the stop is called at the instant the idle-hold /
 	// connect-retry timer fires and the next dial (which succeeds) is launched
@@ -55,7 +57,7 @@ type c10Case struct {
 func c10Spec(i int, p c10Peer) world.PeerSpec {
 	sp := world.PeerSpec{Remote: fmt.Sprintf("10.0.0.%d", 2+i), LocalAS: 64512, RemoteAS: uint32(64600 + i), Hold: 90, IdleHoldMs: 5000, ConnRetryMs: 5000}
 	switch p.Park {
-	case "opensent-in", "openconfirm-in", "established-in", "writers-in":
+	case "opensent-in", "openconfirm-in", "established-in", "writers-in", "opensent-in-partial", "established-in-partial":
 		sp.Passive = p.Passive
 	}
 	if p.Hold0 {
@@ -80,7 +82,7 @@ func c10Plan(park string) memnet.DialPlan {
 		return memnet.DialPlan{Kind: memnet.Stall}
 	case "dial-held":
 		return memnet.DialPlan{Kind: memnet.Hold}
-	case "active", "active-due", "opensent-out", "openconfirm-out", "established-out", "collision", "collision2", "writers-out":
+	case "active", "active-due", "opensent-out", "openconfirm-out", "established-out", "collision", "collision2", "writers-out", "opensent-out-partial", "established-out-partial":
 		return memnet.DialPlan{Kind: memnet.Accept}
 	}
 	return memnet.DialPlan{Kind: memnet.Refuse}
@@ -166,6 +168,8 @@ func c10Prop(t *testing.T, r *hx.Run, sub string) func(c c10Case) hx.Verdict {
 			w.Settle()
 			// park every peer
 			conns := map[string]*memnet.Conn{} // "i/in", "i/out"
+			partialConn := map[int]bool{}      // connections with an incomplete message pending: any further bytes complete garbage
+			partialRest := map[int][]byte{}    // ... and the octets that would complete it
 			var wg sync.WaitGroup
 			stopWriters := make(chan struct{})
 			startWriters := make(chan struct{})
@@ -202,6 +206,24 @@ func c10Prop(t *testing.T, r *hx.Run, sub string) func(c c10Case) hx.Verdict {
 					to(out, stEstablished)
 				case "opensent-in":
 					inbound()
+				case "opensent-in-partial", "established-in-partial", "opensent-out-partial", "established-out-partial":
+					cn := out
+					if strings.Contains(p.Park, "-in-") {
+						cn = inbound()
+					}
+					if cn != nil {
+						if strings.HasPrefix(p.Park, "established") {
+							to(cn, stEstablished)
+						}
+						m := wire.Frame(wire.TypeUpdate, make([]byte, 40))
+						if strings.HasPrefix(p.Park, "opensent") {
+							m = world.RemoteOpen(sp, cn, 90, 0x0a000002).Frame()
+						}
+						cn.RemoteSend(m[:len(m)-7], nil) // the whole header and most of the body
+						w.Settle()
+						partialConn[cn.ID] = true
+						partialRest[cn.ID] = m[len(m)-7:]
+					}
 				case "openconfirm-in":
 					to(inbound(), stOpenConfirm)
 				case "established-in", "writers-in":
@@ -350,6 +372,9 @@ func c10Prop(t *testing.T, r *hx.Run, sub string) func(c c10Case) hx.Verdict {
 					legal := (x.Kind == "open" && fine[cn.ID] == stOpenSent) ||
 						(x.Kind == "keepalive" && fine[cn.ID] != stOpenSent) ||
 						(x.Kind == "update" && fine[cn.ID] == stEstablished)
+					if partialConn[cn.ID] {
+						legal = false
+					}
 					if !legal || progressed[cn.ID] {
 						touched[cn.ID] = true
 					}
@@ -547,6 +572,10 @@ func c10Prop(t *testing.T, r *hx.Run, sub string) func(c c10Case) hx.Verdict {
 				tag := taggedUpdate(uint32(0x10000000+i), 12)
 				ok := false
 				if cn != nil {
+					if rest := partialRest[cn.ID]; rest != nil {
+						cn.RemoteSend(rest, nil) // complete the pending message first
+						w.Settle()
+					}
 					cn.RemoteSend(wire.Frame(wire.TypeUpdate, tag), nil)
 					w.Settle()
 					for _, e := range w.Rec.Events() {
@@ -622,7 +651,7 @@ func c10Prop(t *testing.T, r *hx.Run, sub string) func(c c10Case) hx.Verdict {
 	}
 }
 
-var c10Parks = []string{"idle-due", "active-due", "twins-in", "idle", "dial-stalled", "dial-held", "active", "opensent-out", "openconfirm-out", "established-out",
+var c10Parks = []string{"idle-due", "active-due", "twins-in", "opensent-in-partial", "established-in-partial", "opensent-out-partial", "established-out-partial", "idle", "dial-stalled", "dial-held", "active", "opensent-out", "openconfirm-out", "established-out",
 	"opensent-in", "openconfirm-in", "established-in", "collision", "collision2", "held-down", "writers-in", "writers-out"}
 
 func genC10(rt *rapid.T) c10Case {
